@@ -103,6 +103,8 @@ func c15Decl() *decl.Decl {
 		{Field: "MB", Long: "switches", Type: decl.TMapSB, Desc: "a map of bools"},
 		{Field: "P", Long: "port", Type: decl.TInt, Desc: "a number", Defaults: []string{"80"}},
 		{Field: "Q", Short: "q", Type: decl.TBool, Desc: "short only"},
+		{Field: "QQ", Short: "Q", Type: decl.TBool, Desc: "short only, other case"},
+		{Field: "Port2", Long: "Port", Type: decl.TInt, Desc: "differs from --port by case only"},
 	}}
 	top.Groups = []*decl.Group{{Field: "Grp", Name: "Grp", Namespace: "g", Opts: []*decl.Opt{{Field: "G", Long: "gopt", Type: decl.TString, Desc: "in a group"}, {Field: "Pre", Long: "prefix", Type: decl.TString}}}}
 	top.Cmds = []*decl.Cmd{
